@@ -25,8 +25,9 @@ package packaging
 //@ spec func chainHas(m map[string]bool, k string) bool = k in m && m[k]
 
 // ---- C18: imports resolve correctly for every import graph ------------------------------------------------
+// (C10 too: an import cycle that is not reported is followed for ever - the front end hangs or runs out of memory.)
 //@ func collectPackages
-//@   property C18
+//@   property C18,C10
 //@   requires alreadyCollected != nil && importChain != nil && depthRemaining >= 0
 //@   decreases depthRemaining
 //@   invariant 1: forall k string :: chainHas(importChain, k) == old(chainHas(importChain, k))
